@@ -64,8 +64,8 @@ func (bf *BanFile) Add(ip string, until *time.Time) error {
 		return fmt.Errorf("marshal yaml: %v", err)
 	}
 
-	err = os.WriteFile(filepath.Join(bf.filePath), out, 0644)
-	if err != nil {
+	// Replace the file atomically so that a crash never leaves a truncated ban list behind.
+	if err := writeFileAtomic(filepath.Join(bf.filePath), out); err != nil {
 		return fmt.Errorf("write file: %v", err)
 	}
 
